@@ -33,7 +33,7 @@ ASSUMPTIONS = [
     "with a single heavy flavour per observable so that the mass entering the rescaling is known from the card",
     "the independent engine uses eko's documented block rule for the basis but none of its code",
 ]
-BUDGET = {"quick": {"examples": 3200, "wall": 600, "min_evaluations": 150}, "thorough": {"examples": 12000, "wall": 3400, "min_evaluations": 3000}}
+BUDGET = {"quick": {"examples": 3200, "wall": 600, "min_evaluations": 150}, "thorough": {"examples": 12000, "wall": 2400, "min_evaluations": 3000}}
 MANDATORY = {
     t: ["nontrivial", "x:node", "x:offnode", "grid:log", "grid:linear", "shifted-convolution-point", "x:near-one", "pto:3", "family:heavy", "family:asy", "family:intrinsic"]
     for t in ("quick", "thorough")
